@@ -30,6 +30,13 @@ def gen(rng, tier):
         c["check"] = r.chance(1, 3)
         c["model"] = True
         c["reps"] = reps
+        if r.chance(1, 2):
+            # definitions that observe the execution context (root / current environment names)
+            for d in [c["def"]] + [e["def"] for e in c["envs"].values() if e.get("kind") == "def"]:
+                if r.chance(2, 3):
+                    d["values"].append(("ctxr", ("sym", [("name", "context"), ("name", "rootEnvironment"), ("name", "name")])))
+                if r.chance(1, 3):
+                    d["values"].append(("ctxc", ("sym", [("name", "context"), ("name", "currentEnvironment"), ("name", "name")])))
         cases.append(c)
     # schemas with many violated clauses (outside the model's schema fragment: implementation only)
     for i in range(60 if tier == "thorough" else 25):
@@ -78,7 +85,7 @@ def gen(rng, tier):
 
 
 def prepare(c):
-    r = G.request(c, repeat=c["reps"])
+    r = G.request(c, repeat=c["reps"], history=True)
     if "raw_provs" in c:
         r["provs"] = c["raw_provs"]
     return r
